@@ -797,10 +797,13 @@ func (n *qnode) specHybrid(id uint64) (sum, abs float64, ranked bool) {
 	return
 }
 
-// the chain of single-sub composites ends in a ranking leaf with a negative weight: the index search
-// hands such a result over lowest hybrid score first and Shard.SearchPoints has to put it in order
-// (a violation there gets the signature "rank-order-single-subquery-negative-weight")
+// a composite root whose chain of single-sub composites ends in a ranking leaf with a negative weight:
+// the leaf answers lowest hybrid score first and the single-sub-query shortcut of searchParallel has
+// to put it in order (a violation there gets the signature "rank-order-single-subquery-negative-weight")
 func (n *qnode) passthroughNegative() bool {
+	if len(n.subs) == 0 {
+		return false
+	}
 	for len(n.subs) == 1 {
 		n = n.subs[0]
 	}
@@ -1120,24 +1123,58 @@ func (w *world) search(o *vh.Out, r *vh.Rng, rq request) {
 		}
 	}
 	if len(rq.sorts) == 0 {
+		composite := len(rq.tree.subs) > 0
 		sawUnranked := false
 		for i, x := range full {
 			if !ranked(x) {
 				sawUnranked = true
 				continue
 			}
-			if rq.tree.passthroughNegative() {
-				o.Stats["rank-order-judged(single-subquery-negative-weight)"]++
-			}
 			if sawUnranked {
 				fail("rank-before-unranked", fmt.Sprintf("ranked node %d follows a point matched only by filters", x.NodeId))
 			}
-			if i > 0 && ranked(full[i-1]) && okey(full[i-1].HybridScore) < okey(x.HybridScore) {
-				sig := "rank-order"
+			if composite {
+				// "For composite queries … ranked points come first ordered by that hybrid score, highest first"
 				if rq.tree.passthroughNegative() {
-					sig = "rank-order-single-subquery-negative-weight"
+					o.Stats["rank-order-judged(single-subquery-negative-weight)"]++
 				}
-				fail(sig, fmt.Sprintf("hybrid scores not highest first at position %d: %v then %v", i, full[i-1].HybridScore, x.HybridScore))
+				if i > 0 && ranked(full[i-1]) && okey(full[i-1].HybridScore) < okey(x.HybridScore) {
+					sig := "rank-order"
+					if rq.tree.passthroughNegative() {
+						sig = "rank-order-single-subquery-negative-weight"
+					}
+					fail(sig, fmt.Sprintf("hybrid scores not highest first at position %d: %v then %v", i, full[i-1].HybridScore, x.HybridScore))
+				}
+				continue
+			}
+			// a plain ranking query keeps the order of its index, whatever the sign of the weight (C03-C05):
+			// text by score, highest first, hybrid = weight * score; vector by distance, lowest first,
+			// hybrid = -weight * distance
+			o.Stats["plain-order-judged"]++
+			wt := rq.tree.weight
+			switch rq.tree.kind {
+			case "text":
+				if x.Score == nil {
+					fail("plain-order", fmt.Sprintf("text query: node %d carries no score", x.NodeId))
+					continue
+				}
+				if i > 0 && ranked(full[i-1]) && full[i-1].Score != nil && *full[i-1].Score < *x.Score {
+					fail("plain-order", fmt.Sprintf("plain text query (weight %v): scores not highest first at position %d: %v then %v", wt, i, *full[i-1].Score, *x.Score))
+				}
+				if want := *x.Score * wt; okey(want) != okey(x.HybridScore) {
+					fail("plain-hybrid", fmt.Sprintf("plain text query: node %d has score %v, weight %v, _hybridScore %v", x.NodeId, *x.Score, wt, x.HybridScore))
+				}
+			case "flat":
+				if x.Distance == nil {
+					fail("plain-order", fmt.Sprintf("vector query: node %d carries no distance", x.NodeId))
+					continue
+				}
+				if i > 0 && ranked(full[i-1]) && full[i-1].Distance != nil && *full[i-1].Distance > *x.Distance {
+					fail("plain-order", fmt.Sprintf("plain vector query (weight %v): distances not lowest first at position %d: %v then %v", wt, i, *full[i-1].Distance, *x.Distance))
+				}
+				if want := -1 * wt * *x.Distance; okey(want) != okey(x.HybridScore) {
+					fail("plain-hybrid", fmt.Sprintf("plain vector query: node %d has distance %v, weight %v, _hybridScore %v", x.NodeId, *x.Distance, wt, x.HybridScore))
+				}
 			}
 		}
 	}
@@ -1328,6 +1365,8 @@ func probes(o *vh.Out, dir, variant string) {
 		w.putDocs(o, docs)
 		leaf := &qnode{kind: "flat", weight: -1, q: models.Query{Property: "v", VectorFlat: &models.SearchVectorFlatOptions{Vector: []float32{0, 0}, Operator: models.OperatorNear, Limit: 10, Weight: f32p(-1)}}}
 		tree := &qnode{kind: "or", subs: []*qnode{leaf}, q: models.Query{Property: "_or", Or: []models.Query{leaf.q}}}
+		// the same leaf as a plain query: nearest first, i.e. lowest hybrid score first (index order)
+		w.search(o, vh.NewRng(1), request{tree: leaf, lim: 100})
 		rq := request{tree: tree, lim: 100}
 		before := len(o.Oracle)
 		w.search(o, vh.NewRng(1), rq)
